@@ -1,80 +1,56 @@
 """C04 — every simulated path is a legal walk of the model's events."""
 import sys
 
-from mc import env, gen, pool, report, stoch
-
-
-def configs(tier):
-    bound_models = 1 if tier == "quick" else 2
-    seeds = ["SIR", "BD", "ONE"] if tier == "quick" else ["SIR", "BD", "ONE", "CHAIN", "SEIRBD"]
-    defs = {}
-    feats = {}
-    for sname in seeds:
-        ov, _ = gen.seed(gen.seed_values(sname), stochastic=True)
-
-        def on_def(o, pts, d, sname=sname):
-            k = gen.canon(d)
-            if k not in defs:
-                defs[k] = (sname, d)
-        gen.explore(ov, bound_models, lambda ch: gen.gen_model(ch, stochastic=True), on_def)
-    # horizons are chosen per mode so that the all-default execution takes a handful of steps
-    modes = [(("exact",), [1.0, 2.5]), (("tau_fixed", 0.4), [1.0, 2.5]),
-             (("tau_adaptive", 0.3), [0.5, 1.2]), (("tau_adaptive", 0.03), [0.04, 0.1])]
-    out = []
-    for i, (k, (sname, d)) in enumerate(sorted(defs.items())):
-        ns = len(d["states"])
-        x0s = stoch.X0S[ns][:1] if tier == "quick" else stoch.X0S[ns]
-        for x0 in x0s:
-            x0 = stoch.legal_x0(d, x0)
-            for mode, Ts in modes:
-                for T in (Ts[:1] if tier == "quick" else Ts):
-                    name = "%s#%d/%s/x0=%s/T=%s" % (sname, i, "-".join(map(str, mode)), x0, T)
-                    out.append(stoch.Config(d, stoch.theta_for(d), x0, T, mode, name=name))
-    return out, len(defs)
+from mc import env, pool, report, stoch
+from checks import _stochfam as fam
 
 
 def main(argv=None):
     run = report.Run("C04", "model_checking")
     env.load_pygom()
-    cfgs, ndefs = configs(run.tier)
-    bound = 1 if run.tier == "quick" else 2
-    max_exec = 4000 if run.tier == "quick" else 40000
-    res = pool.pmap(stoch.explore_config, [(c, bound, max_exec, "c04") for c in cfgs], chunksize=1)
-    ex = sum(r["executions"] for r in res)
-    steps = sum(r["steps"] for r in res)
-    skipped = [r for r in res if r["skipped"]]
-    capped = [r["cfg"] for r in res if r["capped"]]
-    for r, c in zip(res, cfgs):
-        for v in r["violations"]:
-            sig = {"what": v["what"], "mode": c.mode[0]}
-            run.violation(sig, {"config": c.key(), "violation": v})
-        if r["sample"]:
-            run.sample(r["sample"])
-        run.count("mode:" + c.mode[0], r["executions"])
-        if r["skipped"]:
-            run.count("skipped:" + r["skipped"][:60])
-        for why, n in r["unjudged"].items():
-            run.count("unjudged:" + why, n)
+    quick = run.tier == "quick"
+    seeds = ["SIR", "BD", "ONE"] if quick else ["SIR", "BD", "ONE", "CHAIN", "SEIRBD", "SIRS2", "DRAIN"]
+    dbound = 1 if quick else 2
+    defs, ngen = fam.gather_defs(seeds, dbound)
+    seed_defs, _ = fam.gather_defs(seeds, 0)
+    # whole executions: deviation bound 2 on the seeds themselves, 1 (quick) / 2 (thorough) around them
+    cfgs = fam.l2_configs(defs, run.tier)
+    bound = 1 if quick else 2
+    jobs = [(c, bound, 6000 if quick else 60000, "c04") for c in cfgs]
+    extra = fam.l2_configs(seed_defs, run.tier, modes=fam.MODES[:3])
+    # the deeper (and longer) explorations go first so that the pool stays busy
+    jobs = [(c, 2 if quick else 3, 20000 if quick else 200000, "c04") for c in extra] + jobs
+    cfgs = extra + cfgs
+    res = pool.pmap(stoch.explore_config, jobs, chunksize=1)
+    ex, steps, capped, nout = fam.summarize_l2(run, res, cfgs)
+    # explicit-state search through the real step functions
+    l1j = fam.l1_jobs(defs, run.tier)
+    l1 = pool.pmap(stoch.l1_explore, l1j, chunksize=1)
+    l1s, l1t = fam.summarize_l1(run, l1, l1j)
     run.cov.update({
-        "evaluations": ex,
-        "distinct_nontrivial": sum(r.get("n_outcomes", 0) for r in res),
-        "rule": "every execution of solve_stochast(T, 1, full_output=True) whose answers to the "
-                "library's exponential/poisson draws deviate from the default answer in at most "
-                "%d places (menus %s / %s), for %d definitions within %s edits of the seeds; "
-                "distinct = distinct recorded state paths per configuration, summed" % (
-                    bound, stoch.sched.EXP_MENU, stoch.sched.POIS_MENU, ndefs,
-                    1 if run.tier == "quick" else 2),
-        "states": steps + len(res),
-        "transitions": steps,
+        "evaluations": ex + l1t,
+        "distinct_nontrivial": nout + l1s,
+        "rule": "L2: every execution of solve_stochast(T, 1, full_output=True) whose answers to the library's "
+                "exponential/poisson draws deviate from the default answer in at most %d places (%d on the seed "
+                "models; menus %s / %s) for %d event-only definitions within %d named-choice edits of seeds %s; "
+                "L1: breadth-first search over integer states (population cap) calling the real firstReaction for "
+                "every ordering of the enabled clocks and the real tauLeap for every vector of poisson answers. "
+                "distinct = distinct recorded paths per configuration (L2) + distinct states (L1)" % (
+                    bound, 2 if quick else 3, stoch.sched.EXP_MENU, stoch.sched.POIS_MENU, len(defs), dbound, seeds),
+        "states": l1s,
+        "transitions": l1t,
         "traces_validated_against_impl": ex,
+        "L2_steps_checked": steps,
         "configurations": len(cfgs),
-        "definitions": ndefs,
+        "definitions": len(defs),
+        "generator_executions": ngen,
         "deviation_bound_completed": bound,
         "capped_configurations": capped[:20],
-        "skipped_configurations": len(skipped),
     })
-    run.assumptions += ["rates evaluated by the reference (sympy) at integer states; parameters fixed per definition",
-                        "draws reach numpy only through numpy.random.exponential/poisson (verified per execution: global generator state untouched)"]
+    run.assumptions += [
+        "reference rates and state-change matrix come from sympy on the definition, never from pygom",
+        "draws reach numpy only through numpy.random.exponential/poisson (verified per execution: the global generator state is untouched and no private generator is constructed)",
+        "populations <= 5 (L2) / <= cap (L1); parameters fixed per definition; tau is taken from the implementation (the property does not prescribe the step size) and only required to be positive and consistent across the poisson requests"]
     rc = run.finish(exhaustive=not capped)
     pool.close()
     return rc
